@@ -70,10 +70,10 @@ Proof.
   pose proof (valid_mats F _ _ _ _ Hv H2) as Hmats. inversion Hmats as [|? n ? ns Hfa Hrest]; subst. inversion Hrest; subst.
   destruct (cp_to_tensor_spec F Op Rth w [fa] [n] R Hv H2) as (t & Ht & Hst & Hgt).
   assert (Wt : wf t).
-  { revert Ht. unfold cp_to_tensor. rewrite Hv. cbn [rbind fst length Nat.eqb]. intros H; injection H as <-. apply wf_tabulate. }
+  { revert Ht. unfold cp_to_tensor, cp_to_tensor_from. rewrite Hv. cbn [rbind fst]. rewrite (as_matrices_id F _ H2), (all_2d_true F _ H2). cbn [negb length Nat.eqb]. intros H; injection H as <-. apply wf_tabulate. }
   assert (Hn : n <> 0) by (simpl in Hpos; lia).
   exists t, (reshape [n; 1] t). split; [exact Ht|]. split.
-  - unfold cp_to_unfolded. rewrite Hv. cbn [rbind fst length Nat.eqb]. rewrite Ht. cbn [rbind].
+  - unfold cp_to_unfolded, cp_to_unfolded_from. unfold cp_to_tensor in Ht. rewrite Hv in *. cbn [rbind fst length Nat.eqb]. rewrite Ht. cbn [rbind].
     change [None; Some 1] with (map Some (@nil nat) ++ [None] ++ map Some [1]).
     rewrite reshape_spec_one_none.
     + rewrite Hst. cbn [prod fold_right app]. replace (n * 1 / (1 * (1 * 1))) with n by (rewrite Nat.mul_1_r, Nat.div_1_r; reflexivity). reflexivity.
@@ -97,7 +97,7 @@ Proof.
   pose proof (mats_length F _ _ _ Hmats) as Hlen.
   assert (Wt : wf t).
   { (* the dense tensor is produced by fold = moveaxis of a reshape, or by tabulate *)
-    revert Ht. unfold cp_to_tensor. rewrite Hv. cbn [rbind fst]. unfold fs in *. clear fs. rename rest0 into rest.
+    revert Ht. unfold cp_to_tensor, cp_to_tensor_from. rewrite Hv. cbn [rbind fst]. rewrite (as_matrices_id F _ H2), (all_2d_true F _ H2). cbn [negb]. unfold fs in *. clear fs. rename rest0 into rest.
     inversion Hmats as [|? n ? ns Hfa Hrest]; subst. inversion Hrest as [|? n' ? ns' Hfb Hrest']; subst.
     replace (length (n :: n' :: ns') =? 1) with false by reflexivity.
     destruct (khatri_rao Op (remove_nth 0 (fa :: fb :: rest))) as [K|]; cbn [rbind]; [|discriminate].
@@ -107,8 +107,8 @@ Proof.
     intros H; injection H as <-. apply wf_moveaxis. }
   exists t.
   (* the unfolded view *)
-  unfold cp_to_unfolded. rewrite Hv. cbn [rbind fst].
-  replace (length shp =? 1) with false by (symmetry; apply Nat.eqb_neq; lia).
+  unfold cp_to_unfolded, cp_to_unfolded_from. rewrite Hv. cbn [rbind fst].
+  replace (length shp =? 1) with false by (symmetry; apply Nat.eqb_neq; lia). rewrite (as_matrices_id F _ H2), (all_2d_true F _ H2). cbn [negb].
   apply Nat.ltb_lt in Hm as Hm'. rewrite Hm'.
   assert (Hm2 : mats R (remove_nth m fs) (remove_nth m shp)) by (now apply Forall2_remove_nth).
   assert (Hne : remove_nth m fs <> []).
@@ -162,7 +162,7 @@ Theorem cp_to_vec_spec (w : option tensor) fs shp R :
     shape v = [prod shp] /\ forall idx, inb shp idx -> get zero v [ravel shp idx] = cp_entry w fs R idx.
 Proof.
   intros Hv H2. destruct (cp_to_tensor_spec F Op Rth w fs shp R Hv H2) as (t & Ht & Hst & Hgt).
-  exists t, (reshape [prod (shape t)] t). unfold cp_to_vec. rewrite Ht. cbn [rbind].
+  exists t, (reshape [prod (shape t)] t). unfold cp_to_vec, cp_to_vec_from, cp_to_tensor. unfold cp_to_tensor in Ht. rewrite Ht. cbn [rbind].
   rewrite tensor_to_vec_eq. repeat split; try reflexivity.
   - cbn [shape reshape]. now rewrite Hst.
   - intros idx Hi. rewrite <- Hgt by exact Hi. unfold get, reshape. cbn [shape data]. rewrite Hst. f_equal. simpl. lia.
@@ -182,7 +182,7 @@ Theorem cp_to_tensor_masked_spec (w : option tensor) fs shp R (mask : tensor) :
     forall idx, inb shp idx -> get zero t idx = get zero mask idx *f cp_entry w fs R idx.
 Proof.
   intros Hv H2 Hms Wm. pose proof (valid_mats F _ _ _ _ Hv H2) as Hmats.
-  unfold cp_to_tensor. rewrite Hv. cbn [rbind fst].
+  unfold cp_to_tensor, cp_to_tensor_from. rewrite Hv. cbn [rbind fst]. rewrite (as_matrices_id F _ H2), (all_2d_true F _ H2). cbn [negb].
   destruct fs as [|fa [|fb rest]]; [inversion Hmats; subst; discriminate Hv | |].
   { (* order 1: the vector times the flattened mask *)
     assert (exists n, shp = [n] /\ shape fa = [n; R]) as (n & -> & Hfa).
